@@ -28,13 +28,25 @@ PROOF = "Gallia.Proofs.C18"
 DRIVER = "c18"
 ORACLE = True
 ASSUMPTIONS = [
-    "only the winning provider's value is validated (an invalid GALLIA_X is not noticed when --x is given): the model follows the code here",
-    "positional arguments are always given on the command line, so the other providers never get a turn (modelled as CLI-only)",
-    "options declared without gallia's Field() (vecu behaviour / randomness switches) carry no config metadata by design: CLI and default only",
+    "reading of 'an invalid value is rejected ... instead of being ignored': the property speaks about the value precedence selects; only the "
+    "winning provider's value is validated (GALLIA_DEPTH=zz is not noticed when --depth 5 is given): theorem losing_invalid_ignored, the model follows the code",
+    "reading of 'a message naming its source': the message names the provider whose value equals the rejected input, else the command line "
+    "(argparse/parser.py compares values); with the very same invalid text on the command line and in the environment / file the lower provider is "
+    "named, which does hold that text (theorem blamed_holds_input); modelled and tied, not counted as a violation",
     "validity of URI / float / OEM values is taken from the type's own constructor (opaque kinds); the glue around it is what is compared",
-    "plain int fields are offered plain decimal text only (pydantic's further lax forms such as '1_000' or '1.0' are outside the model)",
-    "field kinds not modelled (dict[str, Any], list of DDDI tuples, list of services, HexInt): default, presence and stored-config reload only",
-    "equal text given by two providers at once is not generated (the error message picks the provider by comparing values)",
+    "pydantic's lax str -> int (clean_int_str + JSON integer syntax) and Python's int(x, 0) / int(x, 16) / str.strip are modelled for the ASCII "
+    "alphabet and tied on all short strings; Unicode digits and Unicode white space are outside",
+    "argparse is modelled by contract: a repeated option keeps its last occurrence, nargs=* collects the tokens up to the next option string, "
+    "a value with a leading dash needs the --option=value form (negative list elements are therefore not offered)",
+    "TOML values of a type the before-validator of a special field type does not expect (a float for an AutoInt, an int for HexBytes / Ranges2D, a "
+    "non-member int for an enum) are not offered: no shipped command reads such a field from gallia.toml (theorem elementwise_kinds_not_in_file "
+    "and the kinds-by-provider table), the synthetic command would crash there",
+    "git root = nearest ancestor with a .git directory git accepts (GIT_DIR, .git files, bare repositories, safe.directory are outside); the user "
+    "config directory is $XDG_CONFIG_HOME/gallia or ~/.config/gallia (platformdirs on Linux); tomllib is trusted to turn the text into the document tree",
+    "the re-created configuration is compared inside one process: a default computed at import time (seed of `script vecu rng`) is stored "
+    "explicitly, which the stored-JSON comparison checks, but a second interpreter is not started",
+    "dict[str, Any] (--properties of `script vecu db`) cannot be given by any provider (theorem dict_unprovidable, known finding); its store / "
+    "reload is tied on configurations built through the API",
 ]
 
 UNMODELLED = "other"
@@ -69,16 +81,22 @@ def opt_flag(o: L.Opt) -> str:
     return "--" + o.name.replace("_", "-")
 
 
+LIST_KINDS = ("ranges", "ranges2d", "autoInts", "tuples", "enums", "dict")
+
+
 def cli_args(o: L.Opt, conc) -> list[str]:
     if o.kind.name == "bool":
         return [opt_flag(o) if conc else "--no-" + o.name.replace("_", "-")]
     if o.positional:
         return list(conc)
+    if len(conc) == 1 and o.kind.name not in LIST_KINDS and (conc[0].startswith("-") or conc[0] == ""):
+        # argparse takes `-0x10` for an option string: a value with a leading dash travels as --option=value
+        return [opt_flag(o) + "=" + conc[0]]
     return [opt_flag(o)] + list(conc)
 
 
 def lean_field(o: L.Opt) -> str:
-    return o.kind.lean(None if o.const is L.NOCONST else L.canon_val(o.const))
+    return o.kind.lean(None if o.const is L.NOCONST else L.canon_val(o.const), o.positional)
 
 
 class Plan:
@@ -97,6 +115,9 @@ class Plan:
         for o in self.visible:
             if o.required:
                 r = V.valid(o.kind, "cli", rng, self.hi, self.uri_pool)
+                while r is not None and isinstance(r[1], list) and any(isinstance(t, str) and t.startswith("-") for t in r[1]) \
+                        and (o.positional or o.kind.name in LIST_KINDS):
+                    r = V.valid(o.kind, "cli", rng, self.hi, self.uri_pool)
                 if r is not None:
                     self.base[o.name] = cli_args(o, r[1])
         for name, argv in BASE_EXTRA.get(self.path, {}).items():
@@ -128,6 +149,8 @@ class Plan:
 
 
 def sources_of(o: L.Opt) -> list[str]:
+    """providers in priority order (for a positional argument the environment and the file are read as well - and
+    never used)"""
     s = ["cli"]
     if o.env:
         s.append("env")
@@ -136,21 +159,58 @@ def sources_of(o: L.Opt) -> list[str]:
     return s
 
 
+def _dashed(conc) -> bool:
+    return isinstance(conc, list) and any(isinstance(t, str) and t.startswith("-") for t in conc)
+
+
+def same_as_cli(o: L.Opt, src: str, cli):
+    """the provider `src` holding the very text the command line gives: -> (lean_raw, concrete) or None"""
+    raw, conc = cli
+    if raw in ("F",) or o.kind.name == "bool":
+        return None
+    if o.kind.name in LIST_KINDS:
+        if src == "file":
+            return (raw, list(conc))                   # the same list
+        if not conc:
+            return None
+        t = conc[-1]                                   # env: the text of one element (what an element-wise error reports)
+        return ("s:" + L.thex(t), t)
+    if len(conc) != 1:
+        return None
+    return (raw, conc[0])
+
+
 def make_case(plan: Plan, o: L.Opt, combo: dict[str, str], rng) -> dict | None:
-    """combo: source -> 'valid' | 'invalid' | 'flag' (cli bare const); absent = provider silent"""
+    """combo: source -> 'valid' | 'invalid' | 'flag' (cli bare const) | 'same' (the text the command line gives);
+    absent = provider silent"""
     prov = {}
     for src, how in combo.items():
         if how == "flag":
             prov[src] = ("F", [])
             continue
-        gen = V.valid if how == "valid" else V.invalid
-        r = gen(o.kind, src, rng, plan.hi, plan.uri_pool) if how == "valid" else gen(o.kind, src, rng)
+        if how == "same":
+            continue
+        for _ in range(8):
+            r = V.valid(o.kind, src, rng, plan.hi, plan.uri_pool) if how == "valid" else V.invalid(o.kind, src, rng)
+            # positional arguments and list elements cannot start with a dash (argparse reads an option string)
+            if r is None or src != "cli" or not _dashed(r[1]) or not (o.positional or o.kind.name in LIST_KINDS):
+                break
+        else:
+            return None
         if r is None:
             return None
         prov[src] = r
+    for src, how in combo.items():
+        if how == "same":
+            if "cli" not in prov:
+                return None
+            r = same_as_cli(o, src, prov["cli"])
+            if r is None:
+                return None
+            prov[src] = r
     # providers must hand over pairwise different text so that the winner is visible
     texts = [json.dumps(v[1], sort_keys=True, default=str) for v in prov.values()]
-    dflt = None if o.required else L.canon_val(o.default)
+    dflt = None if o.required else L.canon_val_kind(o.default, o.kind)
     case = {
         "cmd": list(plan.path), "opt": o.name, "field": lean_field(o), "kind": o.kind.label(),
         "combo": "-".join(f"{s}:{combo[s]}" for s in SRC_ORDER if s in combo) or "none",
@@ -158,9 +218,16 @@ def make_case(plan: Plan, o: L.Opt, combo: dict[str, str], rng) -> dict | None:
         "cli": list(prov["cli"]) if "cli" in prov else None,
         "env": list(prov["env"]) if "env" in prov else None,
         "file": list(prov["file"]) if "file" in prov else None,
-        "distinct": len(set(texts)) == len(texts),
+        "distinct": len(set(texts)) == len(texts) or "same" in combo.values(),
+        "kname": o.kind.name, "ksub": o.kind.sub,
     }
     cli_part = cli_args(o, prov["cli"][1]) if "cli" in prov and prov["cli"][0] != "F" else ([opt_flag(o)] if "cli" in prov else [])
+    if "cli" in prov and prov["cli"][0] != "F" and not o.positional and rng.random() < 0.12:
+        # the option given twice: argparse keeps the last occurrence (an earlier one may even be invalid)
+        first = (V.valid(o.kind, "cli", rng, plan.hi, plan.uri_pool) if rng.random() < 0.7 else V.invalid(o.kind, "cli", rng))
+        if first is not None and not (_dashed(first[1]) and o.kind.name in LIST_KINDS):
+            cli_part = cli_args(o, first[1]) + cli_part
+            case["repeated"] = True
     case["argv"] = plan.argv_for(o.name, cli_part, provides=bool(prov))
     return case
 
@@ -235,13 +302,23 @@ def real_case(case, tree_parser_builder=None) -> dict:
     res = L.real_parse(parser, argv)
     if res[0] == "ok":
         cfg = res[1]
-        out = {"r": "ok", "val": L.canon_val(getattr(cfg, case["opt"]))}
+        out = {"r": "ok", "val": canon_of(getattr(cfg, case["opt"]), case.get("kname"), case.get("ksub", ""))}
         out.update(reload_config(cmd, cfg))
         return out
     if res[0] == "raise":
         return {"r": "raise", "exc": res[1], "text": res[2]}
     errs = read_error(res[2], case["opt"], "")
     return {"r": "exit", "errs": errs, "text": res[2][-300:]}
+
+
+class _K:
+    def __init__(self, name, sub=""):
+        self.name = name
+        self.sub = sub
+
+
+def canon_of(v, kname, ksub=""):
+    return L.canon_val_kind(v, _K(kname, ksub) if kname else None)
 
 
 def reload_config(cmd, cfg) -> dict:
@@ -272,11 +349,22 @@ def reload_config(cmd, cfg) -> dict:
             if not same:
                 diffs.append([name, L.canon_val(a), L.canon_val(b)])
         out["field_diffs"] = diffs
-        out["stored"] = {k: L.canon_json(v) for k, v in data.items()}
-        out["vals"] = {name: L.canon_val(getattr(cfg, name)) for name in type(cfg).model_fields}
+        kinds = _kinds_of(cmd)
+        out["stored"] = {k: L.canon_json(v, kinds.get(k)) for k, v in data.items()}
+        out["vals"] = {name: L.canon_val_kind(getattr(cfg, name), kinds.get(name)) for name in type(cfg).model_fields}
     except Exception as e:
         out["reload_exc"] = f"{type(e).__name__}: {str(e)[:200]}"
     return out
+
+
+_KINDS: dict = {}
+
+
+def _kinds_of(cmd) -> dict:
+    if cmd not in _KINDS:
+        ct = cmd.CONFIG_TYPE
+        _KINDS[cmd] = {n: L.classify(i.annotation, i.metadata, n, ct) for n, i in ct.model_fields.items()}
+    return _KINDS[cmd]
 
 
 def _run_chunk(chunk):
@@ -290,9 +378,9 @@ def _run_chunk(chunk):
 
 
 def run_real(ctx, cases):
-    if ctx.quick and not ctx.widened or len(cases) < 400:
+    if len(cases) < 400:
         return [real_case(c) for c in cases]
-    n = min(16, os.cpu_count() or 4)
+    n = min(16 if not ctx.quick or ctx.widened else 6, os.cpu_count() or 4)
     chunks = [cases[i::n] for i in range(n)]
     with mp.get_context("fork").Pool(n) as pool:
         parts = pool.map(_run_chunk, chunks)
@@ -322,7 +410,10 @@ def run(ctx):
     ctx.rule = ("one case = (command, option, which of CLI / GALLIA_<NAME> / gallia.toml provide a value (valid, invalid or bare "
                 "const flag), the values); the parser is built by the real create_parser with a temp gallia.toml and "
                 "environment; distinct = distinct (command, option, provider combination, values); non-trivial = at least one "
-                "provider besides the default gives a value, or a required option is left without any")
+                "provider besides the default gives a value, or a required option is left without any; further case kinds: a text given "
+                "to an int / HexInt validator (non-trivial = accepted), a (document, dotted key) pair for Config.get_value (non-trivial = "
+                "present), a world of directories / .git / gallia.toml files / environment for search_config, a configuration sent through "
+                "Rerunner.main from META.json and from run_meta")
     cmds = L.commands()
     ctx.notes["commands"] = len(cmds)
     import c18_synth
@@ -331,12 +422,22 @@ def run(ctx):
     plans = [Plan(p, c, random.Random(f"base:{' '.join(p)}")) for p, c in cmds]
     st = _worker_state()
     try:
-        check_metadata(ctx, plans)
-        check_template(ctx, plans)
-        check_extra_defaults(ctx, plans, rng)
-        check_unprovidable(ctx, plans)
-        check_matrix(ctx, plans, rng)
-        check_tree(ctx, plans, rng)
+        steps = [(check_metadata, (ctx, plans)), (check_template, (ctx, plans)), (check_getvalue, (ctx, rng)), (check_codecs, (ctx, plans)),
+                 (check_keys, (ctx, plans)), (check_template_doc, (ctx, plans)), (check_discovery, (ctx, rng)),
+                 (check_extra_defaults, (ctx, plans, rng)), (check_unprovidable, (ctx, plans)), (check_matrix, (ctx, plans, rng)),
+                 (check_tree, (ctx, plans, rng)), (check_rerun, (ctx, plans, rng))]
+        for f, args in steps:
+            try:
+                f(*args)
+            except Exception as e:  # noqa: BLE001
+                # the implementation raised where the harness expects an answer: the other parts still run and look for the input
+                import traceback
+
+                tb = traceback.format_exc()
+                ctx.disagree(f"part-aborted:{f.__name__}:{type(e).__name__}", f"{f.__name__} aborted: {type(e).__name__}: {str(e)[:200]}",
+                             {"part": f.__name__, "traceback": tb[-1500:]}, impl=f"{type(e).__name__}: {e}"[:300], model="an answer",
+                             spec_violated=False, site=tb.strip().splitlines()[-3].strip()[:200] if len(tb.strip().splitlines()) >= 3 else "")
+                st["sb"].set({}, {})
     finally:
         st["sb"].set({}, {})
 
@@ -576,7 +677,7 @@ def check_unprovidable(ctx, plans):
     st["sb"].set({}, {})
     for plan in plans:
         for o in plan.visible:
-            if o.kind.name == UNMODELLED and o.kind.sub.startswith("dict[") and o.required:
+            if o.kind.name == "dict" and o.required:
                 parser = create_parser(plan.cmd)
                 tries = [[], ["a=1"], ['{"a": 1}'], ["a", "1"]]
                 res = [L.real_parse(parser, plan.argv_for(o.name, [opt_flag(o)] + t, True) + (["--ecu", "e"] if "ecu" in plan.by_name else [])) for t in tries]
@@ -595,16 +696,14 @@ def check_unprovidable(ctx, plans):
 
 def combos_for(o: L.Opt):
     srcs = sources_of(o)
-    if o.positional:
-        yield {"cli": "valid"}
-        return
     n = len(srcs)
     for mask in range(1 << n):
         yield {srcs[i]: "valid" for i in range(n) if mask >> i & 1}
 
 
 def invalid_combos_for(o: L.Opt):
-    """the winner is invalid (must be refused, naming it); a loser is invalid (not noticed)"""
+    """the winner is invalid (must be refused, naming it); a loser is invalid (not noticed); a lower provider holds
+    the very text the command line gives (the message then names that provider)"""
     srcs = sources_of(o)
     for i, s in enumerate(srcs):
         lower = srcs[i + 1:]
@@ -612,6 +711,11 @@ def invalid_combos_for(o: L.Opt):
         for lo in lower:
             yield {s: "invalid", lo: "valid"}      # must not fall through to the valid lower provider
             yield {s: "valid", lo: "invalid"}      # the invalid lower value never reaches a validator
+            if s == "cli":
+                yield {s: "invalid", lo: "same"}
+    if len(srcs) == 3:
+        yield {"cli": "invalid", "env": "valid", "file": "same"}    # the environment value hides the equal file value
+        yield {"cli": "invalid", "env": "same", "file": "same"}
 
 
 def check_matrix(ctx, plans, rng):
@@ -646,7 +750,7 @@ def check_matrix(ctx, plans, rng):
                         if c:
                             c["mode"] = "valid"
                             cases.append(c)
-            if not o.positional:
+            if True:
                 for combo in invalid_combos_for(o):
                     if rng.random() > frac_invalid:
                         continue
@@ -676,9 +780,39 @@ def check_matrix(ctx, plans, rng):
         "of {CLI, env, file, default} are reached for every kind")
 
 
+def _nest(key: str, v) -> dict:
+    parts = key.split(".")
+    d = v
+    for p in reversed(parts):
+        d = {p: d}
+    return d
+
+
+def layered_line(case, o: L.Opt) -> str | None:
+    """the same case through `resolveOption`: environment by name, gallia.toml as a document, key from (section, name)"""
+    if o.kind.name in ("opaque", UNMODELLED) or not (o.decl and o.decl["gallia_field"]):
+        return None
+    if case.get("env") and not case["env"][0].startswith("s:"):
+        return None
+    sec = o.decl["section"]
+    doc = _nest(case["key"], case["file"][1]) if case.get("file") else {}
+    g = lambda s: case[s][0] if case.get(s) else "-"  # noqa: E731
+    return (f"opt {case['field']} {'-' if sec is None else 'S:' + L.thex(sec)} {L.thex(o.name)} 1 {g('cli')} {g('env')} "
+            f"{L.tree_tok(doc)} {case['dflt'] or '-'}")
+
+
 def judge(ctx, plans, cases, reals, label):
     by_path = {p.path: p for p in plans}
     out = ctx.lean([model_line(c) for c in cases])
+    # one option through all layers of the model (names, document lookup, resolution) must say the same
+    lay = [(i, layered_line(c, by_path[tuple(c["cmd"])].by_name[c["opt"]])) for i, c in enumerate(cases)]
+    lay = [(i, l) for i, l in lay if l is not None]
+    for (i, line), lo in zip(lay, ctx.lean([l for _, l in lay])):
+        ctx.ev()
+        if lo != " ".join(out[i].split()[:3]):
+            c = cases[i]
+            ctx.disagree(f"layers:{c['kind']}:{c['combo']}", f"{' '.join(c['cmd'])}:{c['opt']}: resolveOption says {lo}, effective on the same providers {out[i]}",
+                         _replay(c), impl=out[i], model=lo, spec_violated=False, site="Model/Config.lean resolveOption")
     rt_lines, rt_meta = [], []
     for case, real, mo in zip(cases, reals, out):
         plan = by_path[tuple(case["cmd"])]
@@ -711,7 +845,8 @@ def judge(ctx, plans, cases, reals, label):
             good = impl[0] == "ok" and impl[1] == m[2]
             mo_show = mo
         elif m[0] == "rej":
-            good = impl[0] == "rej" and impl[1:] == [m[1]] and _names_option(real, o)
+            # every line of the message against the model's list (one line per failing element)
+            good = impl[0] == "rej" and impl[1:] == m[3].split(",") and m[3].split(",")[0] == m[1] and _names_option(real, o)
             mo_show = mo
         elif m[0] == "missing":
             good = impl[0] == "missing" and (opt_flag(o) in impl[1].replace(",", " ").replace("/", " ").split() or o.positional)
@@ -742,7 +877,7 @@ def judge(ctx, plans, cases, reals, label):
                                  site="Rerunner.main / BaseCommand.__init__")
                 # tie of the model's dump / load for the varied field
                 if o.kind.name != UNMODELLED and good and m[0] == "ok" and m[1] != "default":  # defaults are not validated
-                    rt_lines.append(f"rt {case['field']} {m[2]}")
+                    rt_lines.append(f"rt {case['field'].replace('/pos', '')} {m[2]}")
                     rt_meta.append((case, o, real["stored"].get(case["opt"]), real["vals"].get(case["opt"])))
     if rt_lines:
         for (case, o, stored, val), line in zip(rt_meta, ctx.lean(rt_lines)):
@@ -788,6 +923,19 @@ def report(ctx, plan, o, case, real, impl, m, mo_show, label):
             ctx.disagree(KEY_META, f"{culprit.ident}: declared metadata lost; every run of the command fails: {impl}", _replay(case), impl=impl,
                          model=mo_show, spec_violated=True, site="GalliaBaseModel (pydantic >= 2.12 field collection)")
             return
+    # the run fails on *another* option of the base line (a value from the valid pools is refused there): one finding
+    # for that option, not one per option that happens to be varied next to it
+    if real["r"] == "exit":
+        for src, named_opt, _ in real["errs"]:
+            words = named_opt.replace(",", " ").split()
+            other = next((x for x in plan.visible if x.name != o.name and (opt_flag(x) in words or x.name in words)), None)
+            if other is not None and src != "missing":
+                given = plan.base.get(other.name)
+                ctx.disagree(f"base-line-refused:{decl_class(other)}.{other.name}:{other.kind.label()}:naming-{src}",
+                             f"{other.ident}: the value {given} (valid for {other.kind.label()}) is refused: {real.get('text', '')[-160:].strip()}",
+                             _replay(case), impl=impl + [real.get("text", "")[-200:]], model=f"{other.name} accepted", spec_violated=True,
+                             site="cli.gallia.create_parser / pydantic_argparse")
+                return
     # which provider's value did the implementation end up with?
     got = "?"
     violated = True
@@ -835,15 +983,611 @@ def check_tree(ctx, plans, rng):
     for _ in range(n):
         plan = rng.choice(usable)
         o = rng.choice([o for o in plan.visible if o.kind.name != UNMODELLED and not o.positional])
-        combos = list(combos_for(o))
+        combos = list(combos_for(o)) + list(invalid_combos_for(o))
         c = make_case(plan, o, rng.choice(combos[1:] or combos), rng)
         if c is None or not c["distinct"]:
             continue
-        c["mode"] = "valid"
+        c["mode"] = "invalid" if "invalid" in c["combo"] else "valid"
         cases.append(c)
     reals = [real_case(c, tree_parser_builder=lambda: create_parser(tree)) for c in cases]
     judge(ctx, plans, cases, reals, "tree")
     ctx.exhaustive_parts.append(f"whole-tree parser (create_parser(load_commands())): {len(cases)} seeded cases")
+
+
+# ------------------------------------------------------------------------------------------------------------------
+# H. text codecs on all short strings: pydantic's lax int, int(x, 16)
+# ------------------------------------------------------------------------------------------------------------------
+
+def _adapter(plans, path, name):
+    from typing import Annotated
+
+    from pydantic import TypeAdapter
+
+    plan = next(p for p in plans if p.path == path)
+    info = plan.cmd.CONFIG_TYPE.model_fields[name]
+    return TypeAdapter(Annotated[info.annotation, *info.metadata] if info.metadata else info.annotation)
+
+
+def check_codecs(ctx, plans):
+    import itertools
+
+    n = ctx.pick(4, 5)
+    jobs = [("lax", ("scan", "uds", "sessions"), "max_retries", "019_+-. x\te", "int"),
+            ("hexint", ("primitive", "uds", "dtc", "read"), "mask", "01aF_xX+- g", "hexInt")]
+    for op, path, name, alpha, kname in jobs:
+        try:
+            ta = _adapter(plans, path, name)
+        except StopIteration:
+            ctx.disagree(f"codec-anchor:{' '.join(path)}:{name}", f"{' '.join(path)} --{name} is gone", {}, spec_violated=False)
+            continue
+        texts = ["".join(t) for k in range(n + 1) for t in itertools.product(alpha, repeat=k)]
+        out = ctx.lean([f"{op} {L.thex(t) or '-'}" for t in texts])
+        bad = 0
+        for t, mo in zip(texts, out):
+            try:
+                v = ta.validate_python(t)
+                impl = str(v)
+            except Exception:  # noqa: BLE001
+                impl = "none"
+            ctx.ev()
+            if impl != "none":
+                ctx.nontrivial((op, t))
+            if impl != mo:
+                bad += 1
+                if bad <= 3:
+                    # shortest disagreeing text first (the enumeration is by length)
+                    ctx.disagree(f"codec:{kname}:{t!r}", f"{kname} field given the text {t!r}: implementation {impl}, model {mo}",
+                                 {"kind": kname, "text": t, "option": " ".join(path) + ":" + name}, impl=impl, model=mo,
+                                 spec_violated=(impl != "none" and mo != "none"), site="command/config.py / pydantic lax int")
+        ctx.kind(f"codec:{kname}")
+        ctx.dist[f"codec:{kname}"] = len(texts)
+        ctx.exhaustive_parts.append(f"{kname} text codec: all {len(texts)} strings of length <= {n} over {alpha!r} through the validator of "
+                                    f"{' '.join(path)} --{name}")
+
+
+# ------------------------------------------------------------------------------------------------------------------
+# I. names: GALLIA_<NAME> and <section>.<name> as the code really looks them up
+# ------------------------------------------------------------------------------------------------------------------
+
+def check_keys(ctx, plans):
+    from unittest import mock
+
+    from gallia.config import Config
+
+    class Rec(Config):
+        def __init__(self):
+            super().__init__()
+            self.asked = []
+
+        def get_value(self, key, default=None):
+            self.asked.append(key)
+            return None
+
+    lines, meta = [], []
+    for plan in plans:
+        rec = Rec()
+        plan.cmd.CONFIG_TYPE.attributes_from_config(rec)
+        asked_env = []
+        with mock.patch("os.getenv", side_effect=lambda k, d=None: asked_env.append(k)):
+            plan.cmd.CONFIG_TYPE.attributes_from_env()
+        for o in plan.opts:
+            if o.hidden or not (o.decl and o.decl["gallia_field"]):
+                continue
+            sec = o.decl["section"]
+            lines.append(f"key {'-' if sec is None else 'S:' + L.thex(sec)} {L.thex(o.name)}")
+            meta.append((plan, o, set(rec.asked), set(asked_env)))
+    for (plan, o, asked, asked_env), mo in zip(meta, ctx.lean(lines)):
+        k, e = mo.split()
+        mkey = None if k == "-" else bytes.fromhex(k).decode()
+        menv = bytes.fromhex(e).decode()
+        ctx.ev()
+        real_key = next((a for a in asked if a.rpartition(".")[2] == o.name), None)
+        real_env = next((a for a in asked_env if a == f"GALLIA_{o.name.upper()}"), None)
+        if mkey != real_key:
+            ctx.disagree(f"file-key:{decl_class(o)}.{o.name}", f"{o.ident}: gallia.toml key looked up is {real_key!r}, the declared section gives {mkey!r}",
+                         {"cmd": list(plan.path), "opt": o.name, "section": o.decl["section"]}, impl=real_key, model=mkey,
+                         spec_violated=True, site="GalliaBaseModel.attributes_from_config")
+        if menv != real_env and not metadata_lost(o):
+            ctx.disagree(f"env-name:{decl_class(o)}.{o.name}", f"{o.ident}: environment variable looked up is {real_env!r}, expected {menv!r}",
+                         {"cmd": list(plan.path), "opt": o.name}, impl=real_env, model=menv, spec_violated=True,
+                         site="GalliaBaseModel.attributes_from_env")
+    ctx.dist["names:key+env"] = len(lines)
+    ctx.exhaustive_parts.append(f"names: configKey(section, name) and GALLIA_<NAME> of all {len(lines)} configurable option/command pairs vs the "
+                                "keys / variables the code asks for")
+
+
+# ------------------------------------------------------------------------------------------------------------------
+# J. Config.get_value on generated documents
+# ------------------------------------------------------------------------------------------------------------------
+
+_GV_KEYS = ["a", "b", "gallia", "scanner", "x.y", ""]
+_GV_LEAVES = [0, False, "", 1, -7, True, "s", 1.5, [1, "a"], [], ["x"], {}]
+
+
+def _gen_doc(rng, depth=0):
+    d = {}
+    for k in rng.sample(_GV_KEYS, rng.randrange(0, 5)):
+        if depth < 3 and rng.random() < 0.45:
+            d[k] = _gen_doc(rng, depth + 1)
+        else:
+            d[k] = rng.choice(_GV_LEAVES)
+    return d
+
+
+def _paths(d, pre=()):
+    for k, v in d.items():
+        yield pre + (k,)
+        if isinstance(v, dict):
+            yield from _paths(v, pre + (k,))
+
+
+def check_getvalue(ctx, rng):
+    from gallia.config import Config
+
+    lines, meta = [], []
+    for _ in range(ctx.pick(250, 2500)):
+        doc = _gen_doc(rng)
+        keys = set()
+        ps = list(_paths(doc))
+        for p in rng.sample(ps, min(len(ps), 4)):
+            keys.add(".".join(p))                              # an existing path (to a value or to a table)
+            keys.add(".".join(p + (rng.choice(_GV_KEYS),)))      # one step further: through a value / to a missing entry
+        keys.add(".".join(rng.choice(_GV_KEYS) for _ in range(rng.randrange(1, 4))))
+        keys.add(rng.choice(["", ".", "a.", ".a", "a..b"]))
+        for k in sorted(keys):
+            lines.append(f"gv {L.tree_tok(doc)} {L.thex(k) or '-'}")
+            meta.append((doc, k))
+    n_bad = 0
+    # smallest documents first: the first disagreement reported is a small one
+    for (doc, k), mo in sorted(zip(meta, ctx.lean(lines)), key=lambda x: (len(L.tree_tok(x[0][0])) + len(x[0][1]), x[0][1])):
+        try:
+            v = Config(doc).get_value(k)
+            impl = "none" if v is None else L.tree_tok(v)
+        except Exception as e:  # noqa: BLE001
+            v, impl = None, f"raises-{type(e).__name__}"
+        ctx.ev()
+        ctx.kind("get_value:" + ("absent" if v is None else "table" if isinstance(v, dict) else "falsy" if not v else "value"))
+        if v is not None:
+            ctx.nontrivial(("gv", L.tree_tok(doc), k))
+        if impl != mo and n_bad < 5:
+            n_bad += 1
+            ctx.disagree(f"get-value:{'falsy' if (mo != 'none' and impl == 'none') else impl if impl.startswith('raises') else 'other'}:{k!r}",
+                         f"Config.get_value({k!r}) on {doc!r}: implementation {impl if v is None else repr(v)}, model {mo}", {"doc": doc, "key": k},
+                         impl=impl, model=mo, spec_violated=(mo != "none" and impl == "none") or impl.startswith("raises"),
+                         site="config.Config.get_value")
+    ctx.exhaustive_parts.append(f"Config.get_value: {len(lines)} (document, dotted key) pairs: existing paths, paths through values, to tables, "
+                                "missing, empty parts; falsy values 0 / false / '' / [] / {} among the leaves")
+
+
+# ------------------------------------------------------------------------------------------------------------------
+# K. the template as a document
+# ------------------------------------------------------------------------------------------------------------------
+
+def check_template_doc(ctx, plans):
+    from pydantic_core import PydanticUndefined
+
+    from gallia.command.config import GalliaBaseModel
+    from gallia.config import Config
+
+    text, tkeys = template_keys()
+    reg = GalliaBaseModel.registry()
+    entries = []
+    for k in reg:
+        dv = reg[k][1]
+        if dv is None or dv is PydanticUndefined:
+            entries.append(f"{L.thex(k)}=-")
+            continue
+        try:
+            shown = json.loads(json.dumps(dv))
+        except TypeError:
+            shown = str(dv)
+        entries.append(f"{L.thex(k)}={L.tree_tok(shown)}")
+    mo = ctx.lean(["tmpl " + ("|".join(entries) or "-")])[0]
+    tree, pf = mo.split()
+    ctx.ev()
+    try:
+        parsed = tomllib.loads(text)
+    except tomllib.TOMLDecodeError:
+        return  # reported by check_template
+    model_doc = L.untree(tree)
+    if pf != "pf:1":
+        ctx.disagree("template-keys-not-prefix-free", "a registered key is a prefix of another one: the template cannot hold both",
+                     {"keys": sorted(reg)}, impl=sorted(reg), model="prefix free", spec_violated=True, site="GalliaBaseModel.registry")
+    if model_doc != parsed:
+        diff = sorted(k for k in reg if Config(parsed).get_value(k) != Config(model_doc).get_value(k))
+        ctx.disagree(f"template-doc:{diff[0] if diff else '?'}", f"--template parsed back differs from the template document of the registry at {diff[:5]}",
+                     {"keys": diff[:10], "template": text[:600]}, impl=json.dumps(parsed, default=str)[:600], model=json.dumps(model_doc, default=str)[:600],
+                     spec_violated=bool(diff), site="cli.gallia.template")
+    # lookup of every listed key in the parsed template vs in the model's document
+    lines = [f"gv {tree} {L.thex(k)}" for k in reg]
+    for k, mo2 in zip(reg, ctx.lean(lines)):
+        v = Config(parsed).get_value(k)
+        impl = "none" if v is None else L.tree_tok(v)
+        ctx.ev()
+        dv = reg[k][1]
+        want_some = dv is not None and dv is not PydanticUndefined
+        if impl != mo2 or (want_some and impl == "none"):
+            ctx.disagree(f"template-roundtrip:{k}", f"key {k!r} written by --template (default {dv!r}) reads back as {v!r}, model {mo2}",
+                         {"key": k, "default": repr(dv)}, impl=impl, model=mo2, spec_violated=True, site="cli.gallia.template / Config.get_value")
+    ctx.exhaustive_parts.append(f"--template output parsed back (tomllib) = template document of the registry ({len(reg)} keys), every key looked up in both")
+
+
+# ------------------------------------------------------------------------------------------------------------------
+# L. which gallia.toml is picked: real directory trees
+# ------------------------------------------------------------------------------------------------------------------
+
+def _fake_git(d):
+    g = os.path.join(d, ".git")
+    os.makedirs(os.path.join(g, "objects"), exist_ok=True)
+    os.makedirs(os.path.join(g, "refs"), exist_ok=True)
+    with open(os.path.join(g, "HEAD"), "w") as f:
+        f.write("ref: refs/heads/main\n")
+
+
+class DiscTree:
+    """a real directory tree work/proj/sub (the working directory is `sub`), HOME, XDG and extra directories under one
+    temp root; `run(world)` arranges .git directories / gallia.toml files / environment and asks the real search_config()"""
+
+    def __init__(self):
+        import tempfile
+
+        self.root = os.path.realpath(tempfile.mkdtemp(prefix="c18d-", dir="/var/tmp"))
+        self.saved_env = {k: os.environ.get(k) for k in ("HOME", "XDG_CONFIG_HOME", "GIT_CEILING_DIRECTORIES", "GALLIA_CONFIG", "GIT_DIR", "GIT_WORK_TREE")}
+        self.saved_cwd = os.getcwd()
+        root = self.root
+        d2 = os.path.join(root, "work")
+        d1 = os.path.join(d2, "proj")
+        d0 = os.path.join(d1, "sub")
+        self.chain = [d0, d1, d2]
+        self.home, self.xdg = os.path.join(root, "home"), os.path.join(root, "xdg")
+        self.extra = [os.path.join(root, "extra0"), os.path.join(root, "extra1")]
+        self.envfile = os.path.join(root, "envcfg", "my.toml")
+        for d in self.chain + [os.path.join(self.home, ".config", "gallia"), os.path.join(self.xdg, "gallia"), os.path.dirname(self.envfile)] + self.extra:
+            os.makedirs(d, exist_ok=True)
+        os.environ["HOME"] = self.home
+        os.environ["GIT_CEILING_DIRECTORIES"] = root
+        for k in ("GIT_DIR", "GIT_WORK_TREE"):
+            os.environ.pop(k, None)
+        os.chdir(d0)
+        self.user_toml = {True: os.path.join(self.xdg, "gallia", "gallia.toml"), False: os.path.join(self.home, ".config", "gallia", "gallia.toml")}
+        self.cur_git = None
+
+    @staticmethod
+    def _set(path, on):
+        from pathlib import Path
+
+        if on:
+            Path(path).write_text("")
+        elif os.path.exists(path):
+            os.unlink(path)
+
+    def run(self, world):
+        import shutil
+        from pathlib import Path
+
+        from gallia import config as gc
+
+        gits, tomls, xs, xt, ht, ev, ex = world
+        gits, tomls = tuple(gits), tuple(tomls)
+        if gits != self.cur_git:
+            for d, g in zip(self.chain, gits):
+                shutil.rmtree(os.path.join(d, ".git"), ignore_errors=True)
+                if g:
+                    _fake_git(d)
+            self.cur_git = gits
+        for d, t in zip(self.chain, tomls):
+            self._set(os.path.join(d, "gallia.toml"), t)
+        self._set(self.user_toml[True], xt)
+        self._set(self.user_toml[False], ht)
+        if xs:
+            os.environ["XDG_CONFIG_HOME"] = self.xdg
+        else:
+            os.environ.pop("XDG_CONFIG_HOME", None)
+        extras = []
+        for i, c in enumerate("" if ex == "-" else ex):
+            self._set(os.path.join(self.extra[i], "gallia.toml"), c == "1")
+            extras.append(Path(self.extra[i]))
+        self._set(self.envfile, False)
+        if ev == "u":
+            os.environ.pop("GALLIA_CONFIG", None)
+        else:
+            os.environ["GALLIA_CONFIG"] = self.envfile
+            self._set(self.envfile, ev == "e")
+        try:
+            got = gc.search_config(extra_paths=extras or None)
+            impl = "nothing" if got is None else "file " + str(got)
+        except FileNotFoundError:
+            impl = "notfound"
+        return impl, [str(p) for p in gc.get_config_dirs()]
+
+    @staticmethod
+    def line(world) -> str:
+        gits, tomls, xs, xt, ht, ev, ex = world
+        return "disc " + ",".join(("g" if g else "-") + ("t" if t else "-") for g, t in zip(gits, tomls)) + f" {ev} {xs} {xt} {ht} {ex}"
+
+    def place(self, tok, xs):
+        if tok == "env":
+            return self.envfile
+        if tok.startswith("up:"):
+            return os.path.join(self.chain[int(tok[3:])], "gallia.toml")
+        if tok == "user":
+            return self.user_toml[bool(xs)]
+        return os.path.join(self.extra[int(tok[6:])], "gallia.toml")
+
+    def model(self, mo, world):
+        """driver output -> (result as the implementation would print it, directory list)"""
+        parts = mo.split()
+        cands = parts[-1].split(",")
+        res = parts[0] if parts[0] != "file" else "file " + self.place(parts[1], world[2])
+        return res, [os.path.dirname(self.place(c, world[2])) for c in cands if not c.startswith("extra")], parts
+
+    def close(self):
+        import shutil
+
+        os.chdir(self.saved_cwd)
+        for k, v in self.saved_env.items():
+            if v is None:
+                os.environ.pop(k, None)
+            else:
+                os.environ[k] = v
+        shutil.rmtree(self.root, ignore_errors=True)
+
+
+def check_discovery(ctx, rng):
+    import itertools
+
+    dt = DiscTree()
+    root = dt.root
+    try:
+        # does the `git` of this machine take the fake .git directory for a repository? (no git at all, or one that refuses
+        # the directory, says nothing about gallia: then only the worlds without a .git are run, and that is recorded)
+        import subprocess
+
+        _fake_git(dt.chain[2])
+        try:
+            probe = subprocess.run(["git", "rev-parse", "--show-toplevel"], capture_output=True, cwd=dt.chain[0]).stdout.decode().strip()
+        except OSError:
+            probe = ""
+        git_ok = probe == dt.chain[2]
+        import shutil as _sh
+
+        _sh.rmtree(os.path.join(dt.chain[2], ".git"), ignore_errors=True)
+        if not git_ok:
+            ctx.assume("git is not available (or does not accept the fake .git directory) on this machine: config discovery is tied without git roots")
+        worlds = list(itertools.product(itertools.product([0, 1], repeat=3), itertools.product([0, 1], repeat=3), [0, 1], [0, 1], [0, 1], "uem",
+                                        ["-", "0", "1", "01", "10", "11"]))
+        if ctx.quick and not ctx.widened:
+            # every git placement x every gallia.toml placement with the user dirs / env / extra fixed, plus a seeded sample
+            pick = [w for w in worlds if w[5] == "u" and w[6] == "-" and w[2:5] == (1, 1, 0)]
+            rest = [w for w in worlds if w not in set(pick)]
+            worlds = pick + rng.sample(rest, 90)
+        if not git_ok:
+            worlds = [w for w in worlds if not any(w[0])]
+        worlds.sort(key=lambda w: w[0])
+        lines, meta = [], []
+        for w in worlds:
+            impl, dirs = dt.run(w)
+            lines.append(dt.line(w))
+            meta.append((impl, dirs, w))
+
+        def weight(item):
+            (_, _, (gits, tomls, xs, xt, ht, ev, ex)), _ = item
+            return (sum(gits) + sum(tomls) + xs + xt + ht + (ev != "u") + (0 if ex == "-" else len(ex) + ex.count("1")), gits, tomls, xs, xt, ht, ev, ex)
+
+        n_bad = {True: 0, False: 0}
+        # smallest worlds first: the first disagreement reported is a minimal one; a different file first, then a different
+        # directory list that happens to find the same file
+        for (impl, dirs, w), mo in sorted(zip(meta, ctx.lean(lines)), key=weight):
+            res, mdirs, parts = dt.model(mo, w)
+            ctx.ev()
+            ctx.kind("discovery:" + (parts[1].split(":")[0] if parts[0] == "file" else parts[0]))
+            ctx.nontrivial(("disc",) + tuple(map(str, w)))
+            ctx.traces_validated += 1
+            if (impl != res or dirs != mdirs) and n_bad[impl != res] < 3:
+                n_bad[impl != res] += 1
+                gits, tomls, xs, xt, ht, ev, ex = w
+                ctx.disagree(f"discovery{'' if impl != res else '-dirs'}:git={''.join(map(str, gits))}:toml={''.join(map(str, tomls))}:xdg={xs}{xt}{ht}:env={ev}:extra={ex}",
+                             f"search_config() with .git in {gits}, gallia.toml in {tomls} (cwd, parent, grandparent), XDG_CONFIG_HOME {'set' if xs else 'unset'} "
+                             f"(xdg file {xt}, ~/.config file {ht}), GALLIA_CONFIG {ev}, extra {ex}: implementation {impl.replace(root, '')} dirs "
+                             f"{[d.replace(root, '') for d in dirs]}, model {res.replace(root, '')} dirs {[d.replace(root, '') for d in mdirs]}",
+                             {"discovery": [list(gits), list(tomls), xs, xt, ht, ev, ex]},
+                             impl=[impl.replace(root, ""), [d.replace(root, "") for d in dirs]], model=[res.replace(root, ""), [d.replace(root, "") for d in mdirs]],
+                             spec_violated=impl != res, site="config.search_config / get_config_dirs / get_git_root")
+        ctx.exhaustive_parts.append(f"config file discovery on a real directory tree (cwd / parent / grandparent, fake .git directories, HOME, "
+                                    f"XDG_CONFIG_HOME, GALLIA_CONFIG, extra_paths): {len(lines)} worlds" +
+                                    ("" if ctx.quick and not ctx.widened else " = every combination"))
+    finally:
+        dt.close()
+
+
+# ------------------------------------------------------------------------------------------------------------------
+# M. the stored configuration through `gallia script rerun`'s own code (META.json and run_meta in the database)
+# ------------------------------------------------------------------------------------------------------------------
+
+def _rerun(cmd, cfg, tmp, tag):
+    """-> {'file': cfg' | exception text, 'db': ...}: what Rerunner.main() hands to the command's entry point"""
+    import asyncio
+    from datetime import UTC, datetime
+    from pathlib import Path
+    from unittest import mock
+
+    from gallia.commands.script.rerun import Rerunner, RerunnerConfig
+    from gallia.db.handler import DBHandler
+
+    target = cmd(cfg)
+    meta_path = Path(tmp) / f"META-{tag}.json"
+    meta_path.write_text(target.run_meta.json() + "\n")            # what entry_point() writes into the artifacts dir
+    db_path = Path(tmp) / f"run-{tag}.db"
+    seen = {}
+
+    async def fake_entry_point(self):
+        seen["cfg"] = self.config
+        return 0
+
+    async def go():
+        out = {}
+        h = DBHandler(db_path)
+        await h.connect()
+        await h.insert_run_meta(script=target.run_meta.command, config=cfg, start_time=datetime.now(UTC).astimezone(), path=None)
+        rid = h.meta
+        cur = await h.connection.execute("SELECT script, config FROM run_meta WHERE id = ?", (rid,))
+        row = await cur.fetchone()
+        out["stored_db"] = (row[0], json.loads(row[1]))
+        await h.disconnect()
+        m = json.loads(meta_path.read_text())
+        out["stored_file"] = (m.get("command"), m.get("config"))
+        for how in ("file", "db"):
+            seen.clear()
+            r = Rerunner(RerunnerConfig(file=meta_path) if how == "file" else RerunnerConfig(id=rid, db=db_path))
+            try:
+                if how == "db":
+                    r.db_handler = DBHandler(db_path)
+                    await r.db_handler.connect()
+                with mock.patch.object(cmd, "entry_point", fake_entry_point):
+                    try:
+                        await r.main()
+                        out[how] = "main() returned"
+                    except SystemExit as e:
+                        out[how] = seen.get("cfg", f"exit {e.code} before the entry point")
+            except Exception as e:  # noqa: BLE001
+                out[how] = f"{type(e).__name__}: {str(e)[:160]}"
+            finally:
+                if how == "db" and r.db_handler is not None:
+                    await r.db_handler.disconnect()
+        return out
+
+    return asyncio.run(go())
+
+
+def _cfg_equal(a, b):
+    from gallia.transports import TargetURI
+
+    if a.model_dump_json() != b.model_dump_json() or type(a) is not type(b) and not isinstance(b, type(a).__mro__[1]):
+        pass
+    diffs = []
+    for name in type(a).model_fields:
+        x, y = getattr(a, name), getattr(b, name, None)
+        same = (x.raw == y.raw and type(x) is type(y)) if isinstance(x, TargetURI) and isinstance(y, TargetURI) else x == y
+        if not same:
+            diffs.append(name)
+    if not diffs and a.model_dump_json() != b.model_dump_json():
+        diffs.append("<dump>")
+    return diffs
+
+
+def check_rerun(ctx, plans, rng):
+    import shutil
+    import tempfile
+
+    from gallia.cli.gallia import create_parser
+
+    st = _worker_state()
+    st["sb"].set({}, {})
+    tmp = tempfile.mkdtemp(prefix="c18r-", dir="/var/tmp")
+    rounds = ctx.pick(1, 4)
+    lines, meta = [], []
+    dump_lines, dump_meta = [], []
+    try:
+        jobs = []
+        for plan in plans:
+            if plan.unusable:
+                continue
+            parser = create_parser(plan.cmd)
+            for r in range(rounds):
+                # the base line plus a few more options given on the command line
+                argv_extra, varied = [], []
+                cand = [o for o in plan.visible if not o.positional and o.name not in plan.base and o.kind.name not in (UNMODELLED, "dict")
+                        and not (XOR.get(plan.path) and o.name in XOR[plan.path][:2])]
+                # first round: every container / enum / special-int option of the command (lists of services and sessions of the
+                # vecu's randomness parameters, DDDI sources, ranges, ...) is given; later rounds: a random handful
+                special = [o for o in cand if o.kind.name in LIST_KINDS + ("enum", "hexInt", "hexBytes", "autoInt")]
+                for o in (special if r == 0 else rng.sample(cand, min(len(cand), rng.randrange(0, 5)))):
+                    v = V.valid(o.kind, "cli", rng, plan.hi, plan.uri_pool)
+                    if v is None or (_dashed(v[1]) and o.kind.name in LIST_KINDS):
+                        continue
+                    argv_extra += cli_args(o, v[1])
+                    varied.append(o.name)
+                res = L.real_parse(parser, plan.argv_for("", [], False) + argv_extra)
+                if res[0] != "ok":
+                    res = L.real_parse(parser, plan.argv_for("", [], False))     # cross-field validators: fall back to the base line
+                    varied = []
+                if res[0] == "ok":
+                    jobs.append((plan, res[1], varied))
+        # dict[str, Any] cannot come from the command line (known finding): a config built through the API
+        dbv = next((p for p in plans if p.path == ("script", "vecu", "db")), None)
+        if dbv is not None:
+            try:
+                jobs.append((dbv, dbv.cmd.CONFIG_TYPE(target="tcp://127.0.0.1:20162", path="/var/tmp/x.db", ecu="ecu0",
+                                                      properties={"a": 1, "b": {"c": [1, 2], "d": None}, "e": "x", "f": [], "g": True}), ["properties"]))
+                jobs.append((dbv, dbv.cmd.CONFIG_TYPE(target="tcp://127.0.0.1:20162", path="/var/tmp/x.db", ecu=None, properties=None), ["properties"]))
+            except Exception as e:  # noqa: BLE001
+                ctx.disagree("rerun-api-config:script vecu db", f"DbVirtualECUConfig cannot be built through the API: {e!r}", {}, spec_violated=False)
+        for i, (plan, cfg, varied) in enumerate(jobs):
+            got = _rerun(plan.cmd, cfg, tmp, str(i))
+            ctx.ev(2)
+            ctx.traces_validated += 2
+            ctx.kind("rerun:" + " ".join(plan.path))
+            ctx.nontrivial(("rerun", plan.path, cfg.model_dump_json()))
+            full = json.loads(cfg.model_dump_json())
+            case = {"cmd": list(plan.path), "config": full, "given": varied}
+            want_cmd = f"{plan.cmd.__module__}.{plan.cmd.__name__}"
+            for how in ("file", "db"):
+                g = got[how]
+                src = "META.json" if how == "file" else "run_meta in the database"
+                # what is stored is the whole configuration (the model's `store`: every field under its name) and the command
+                sc, sj = got["stored_" + how]
+                if sc != want_cmd or not isinstance(sj, dict) or set(sj) != set(type(cfg).model_fields) or sj != full:
+                    miss = sorted(set(type(cfg).model_fields) - set(sj or {}))
+                    diff = sorted(k for k in (sj or {}) if k in full and sj[k] != full[k])
+                    ctx.disagree(f"stored-config:{how}:{'command' if sc != want_cmd else 'lacks-fields' if miss else 'differs'}",
+                                 f"{src} of `{' '.join(plan.path)}` does not hold the configuration of the run: command {sc!r}, fields missing "
+                                 f"{miss[:6]}, fields stored differently {diff[:6]}", case, impl={"command": sc, "config": sj}, model=full,
+                                 spec_violated=True, site="BaseCommand.__init__ / DBHandler.insert_run_meta")
+                if isinstance(g, str):
+                    ctx.disagree(f"rerun-raises:{how}:{' '.join(plan.path)}", f"gallia script rerun from {src} of `{' '.join(plan.path)}`: {g}", case,
+                                 impl=g, model="equal configuration", spec_violated=True, site="Rerunner.main")
+                    continue
+                diffs = _cfg_equal(cfg, g)
+                if diffs:
+                    od = plan.by_name.get(diffs[0])
+                    ctx.disagree(f"rerun-differs:{how}:{decl_class(od) if od else '?'}.{diffs[0]}",
+                                 f"gallia script rerun from {src} of `{' '.join(plan.path)}` re-creates {diffs[0]} = "
+                                 f"{getattr(g, diffs[0], None)!r} instead of {getattr(cfg, diffs[0], None)!r}", case, impl=diffs,
+                                 model="equal configuration", spec_violated=True, site="Rerunner.main")
+            # the model's store / reload over the whole configuration
+            kinds = _kinds_of(plan.cmd)
+            toks = []
+            for name in type(cfg).model_fields:
+                k = kinds[name]
+                if k.name == UNMODELLED:
+                    continue
+                toks += [L.thex(name), k.lean(None, False), L.canon_val_kind(getattr(cfg, name), k)]
+            lines.append("rs " + " ".join(toks))
+            meta.append((plan, case))
+            # ... and field by field: the model's dump is what the file / the database hold
+            sj = got["stored_db"][1] if isinstance(got["stored_db"][1], dict) else {}
+            for name in type(cfg).model_fields:
+                k = kinds[name]
+                if k.name != UNMODELLED and name in sj:
+                    dump_lines.append(f"rt {k.lean(None, False)} {L.canon_val_kind(getattr(cfg, name), k)}")
+                    dump_meta.append((plan, name, k, L.canon_json(sj[name], k), L.canon_val_kind(getattr(cfg, name), k), case))
+        for (plan, name, k, stored, val, case), mo in zip(dump_meta, ctx.lean(dump_lines)):
+            j, status, *rest = mo.split()
+            ctx.ev()
+            ctx.kind(f"stored:{k.label()}")
+            if j != stored or status != "ok" or rest[0] != val:
+                ctx.disagree(f"dump-load-model:{k.label()}", f"{' '.join(plan.path)}:{name}: run_meta holds {stored} for the value {val}; the model's dump {j} / load {status} {rest}",
+                             dict(case, field=name), impl=[stored, val], model=mo, spec_violated=False, site="command/config.py serialisers")
+        for (plan, case), mo in zip(meta, ctx.lean(lines)):
+            ctx.ev()
+            if mo != "ok":
+                ctx.disagree(f"reload-model:{' '.join(plan.path)}:{mo}", f"model: reload (store cfg) of `{' '.join(plan.path)}` is {mo}", case, impl="equal",
+                             model=mo, spec_violated=False, site="Model/Config.lean store / reload")
+    finally:
+        shutil.rmtree(tmp, ignore_errors=True)
+    ctx.exhaustive_parts.append(f"stored configuration through Rerunner.main(): {len(meta)} accepted configurations of {len({m[0].path for m in meta})} commands, each "
+                                "written as META.json (RunMeta.json) and into run_meta (DBHandler.insert_run_meta) and re-created from both; the "
+                                "model's reload (store cfg) on the same configurations")
 
 
 def replay(ctx, case):
@@ -851,6 +1595,39 @@ def replay(ctx, case):
     L.ready()
     c = case.get("case", {})
     print(json.dumps(c, indent=1, default=str))
+    if "discovery" in c:
+        dt = DiscTree()
+        try:
+            w = c["discovery"]
+            impl, dirs = dt.run(w)
+            res, mdirs, _ = dt.model(ctx.lean([dt.line(w)])[0], w)
+            print("implementation:", impl.replace(dt.root, ""), [d.replace(dt.root, "") for d in dirs])
+            print("model:         ", res.replace(dt.root, ""), [d.replace(dt.root, "") for d in mdirs])
+            return 0 if (impl, dirs) == (res, mdirs) else 1
+        finally:
+            dt.close()
+    if "doc" in c and "key" in c:
+        from gallia.config import Config
+
+        v = Config(c["doc"]).get_value(c["key"])
+        impl = "none" if v is None else L.tree_tok(v)
+        mo = ctx.lean([f"gv {L.tree_tok(c['doc'])} {L.thex(c['key']) or '-'}"])[0]
+        print("implementation:", repr(v), impl)
+        print("model:         ", mo)
+        return 0 if impl == mo else 1
+    if "text" in c and "kind" in c and "option" in c:
+        st = _worker_state()
+        path, _, name = c["option"].rpartition(":")
+        plan = Plan(tuple(path.split()), st["cmds"][tuple(path.split())], random.Random(0))
+        ta = _adapter([plan], plan.path, name)
+        try:
+            impl = str(ta.validate_python(c["text"]))
+        except Exception:  # noqa: BLE001
+            impl = "none"
+        mo = ctx.lean([f"{'lax' if c['kind'] == 'int' else 'hexint'} {L.thex(c['text']) or '-'}"])[0]
+        print("implementation:", impl)
+        print("model:         ", mo)
+        return 0 if impl == mo else 1
     if "argv" not in c:
         print("recorded case is not a parser run; impl:", case.get("impl"), "model:", case.get("model"))
         return 0
@@ -876,18 +1653,24 @@ def replay(ctx, case):
 
 
 MANIFEST = {
-    "level_text": ("Lean 4 theorems over a model of configuration resolution: the three stages the code has (environment over file in "
-                   "the extra defaults, command line over extra default in argparse, field default last) compose to CLI > env > file > "
-                   "default for all 16 provider combinations; only the winner is validated and a refused value is reported with its "
-                   "provider, never skipped; dump/load of the stored configuration is the identity for every field type (AutoInt in four "
-                   "bases, HexBytes, Ranges, Ranges2D, enums by name or value, booleans, optional and const flags). Tied to the code by "
-                   "running the real create_parser for every command of load_commands() x every option x every provider combination "
-                   "with a temp gallia.toml and environment, the stored-config reload of every accepted run, the --template keys "
-                   "against the keys really looked up, and a table of all options regenerated from the live command tree with "
-                   "kernel-checked facts (no env-name / key collision inside a command)."),
-    "level_note": ("Partial: pydantic validation and argparse are modelled by contract; URI / float validity is taken from the type's "
-                   "constructor; a few container kinds are checked for presence and reload only. Trusted: Lean kernel (propext, "
-                   "Quot.sound, Classical.choice), the table generator, the harness."),
-    "technique": "Lean 4 proof (case analysis, induction on digit strings) + exhaustive differential correspondence against the real parser glue",
+    "level_text": ("Lean 4 theorems over a model of configuration resolution in three layers. (1) Providers: environment over file in the extra "
+                   "defaults, command line over extra default in argparse (positional arguments are never offered a default), field default last "
+                   "compose to CLI > env > file > default for all 16 provider combinations and every field kind (precedence, precedence_all_kinds); "
+                   "only the winner is validated (losing_invalid_ignored), a refused value is never skipped (invalid_rejected_blame) and the provider "
+                   "named holds the rejected input (blamed_holds_input, invalid_names_source). (2) Values: every field kind that occurs in the live "
+                   "command tree has a codec - AutoInt in four bases, HexInt, pydantic's lax int, HexBytes, Ranges, Ranges2D, enums by name or value, "
+                   "enum lists, DDDI tuple lists, dict, booleans, optional and const flags - with load (dump v) = v (load_dump) and, field by field "
+                   "over a whole configuration, reload (store cfg) = cfg (reload_store); the regenerated (command, option, kind) table must contain "
+                   "no kind the model lacks (all_kinds_modelled). (3) File layer: documents as trees, Config.get_value, the section.name key rule, the "
+                   "template document (template_roundtrip for the live registry, registry_prefix_free) and config file discovery "
+                   "(discovery_order, discovery_independent_of_later, git_root_nearest). Tied to the code by the real create_parser for every command "
+                   "x every option x every provider combination with valid and invalid texts of every kind, the text codecs on all short strings, "
+                   "Config.get_value on generated documents, --template parsed back, search_config on real directory trees with fake .git "
+                   "directories, and the reload through Rerunner.main from META.json and from run_meta in a real database."),
+    "level_note": ("Partial: pydantic validation, argparse, tomllib, git and platformdirs are modelled by contract; URI / float validity is taken "
+                   "from the type's constructor; cross-field validators are kept satisfied, not modelled. Trusted: Lean kernel (propext, Quot.sound, "
+                   "Classical.choice), the table generator, the harness."),
+    "technique": ("Lean 4 proof (case analysis, induction on digit strings, on documents and paths, first-match lemmas) + regenerated option / registry "
+                  "tables with kernel-checked obligations + exhaustive differential correspondence against the real parser glue, config loader and rerunner"),
     "design_ref": "DESIGN.md section 7, C18",
 }
